@@ -28,3 +28,133 @@ theorem intValue_intBytes (e : Endian) (n v : Nat) : intValue e (intBytes e n v)
   cases e <;> simp [intValue, intBytes, beValue_rev_leBytes]
 
 end Tbox.C19.Ser
+
+/-! ### field sequences -/
+namespace Tbox.C19.Ser
+open Tbox.C19
+
+/-- the bytes a field sequence serializes to, starting with endianness `e` -/
+def encodeFields : Endian → List Field → List UInt8
+  | _, [] => []
+  | e, .int n v :: r => intBytes e n v ++ encodeFields e r
+  | e, .raw bs :: r => bs ++ encodeFields e r
+  | e, .pod bs :: r => (match e with | .little => bs | .big => bs.reverse) ++ encodeFields e r
+  | _, .endian e' :: r => encodeFields e' r
+
+/-- integers fit their width -/
+def Field.valid : Field → Bool
+  | .int n v => decide (v < 256 ^ n)
+  | _ => true
+
+theorem put_vec (s : S) (bs : List UInt8) (hr : s.raw = false) (hl : s.mem.length = s.pos) :
+    s.put bs = .ok (true, { s with mem := s.mem ++ bs, pos := s.pos + bs.length }) := by
+  unfold S.put
+  simp only [hr, Bool.false_eq_true, if_false]
+  have h1 : s.mem.take (s.pos + bs.length) = s.mem := List.take_of_length_le (by omega)
+  have : (resize s.mem (s.pos + bs.length)).take s.pos = s.mem := by
+    unfold resize
+    rw [h1, List.take_left' hl]
+  rw [this]
+
+/-- a vector-backed serializer whose vector is exactly the bytes written so far appends the encoding -/
+theorem serFields_vec : ∀ (fs : List Field) (s : S), s.raw = false → s.mem.length = s.pos →
+    ∃ s', serFields s fs = .ok s' ∧ s'.mem = s.mem ++ encodeFields s.endian fs ∧ s'.raw = false
+      ∧ s'.mem.length = s'.pos := by
+  intro fs
+  induction fs with
+  | nil => intro s hr hl; exact ⟨s, rfl, by simp [encodeFields], hr, hl⟩
+  | cons f r ih =>
+    intro s hr hl
+    cases f with
+    | int n v =>
+      simp only [serFields, S.appendInt, put_vec s _ hr hl, Res.bind_ok]
+      obtain ⟨s', e, m, a, b⟩ := ih { s with mem := s.mem ++ intBytes s.endian n v, pos := s.pos + (intBytes s.endian n v).length } hr (by simp [hl])
+      exact ⟨s', e, by rw [m]; simp [encodeFields], a, b⟩
+    | raw bs =>
+      simp only [serFields, S.appendRaw, put_vec s _ hr hl, Res.bind_ok]
+      obtain ⟨s', e, m, a, b⟩ := ih { s with mem := s.mem ++ bs, pos := s.pos + bs.length } hr (by simp [hl])
+      exact ⟨s', e, by rw [m]; simp [encodeFields], a, b⟩
+    | pod bs =>
+      obtain ⟨raw, cap, mem, en, pos⟩ := s
+      simp only at hr hl
+      cases en
+      · simp only [serFields, S.appendPOD, encodeFields]
+        rw [put_vec _ _ hr hl]; simp only [Res.bind_ok]
+        obtain ⟨s', e, m, a, b⟩ := ih ⟨raw, cap, mem ++ bs.reverse, .big, pos + bs.reverse.length⟩ hr (by simp [hl])
+        exact ⟨s', e, by rw [m]; simp, a, b⟩
+      · simp only [serFields, S.appendPOD, encodeFields]
+        rw [put_vec _ _ hr hl]; simp only [Res.bind_ok]
+        obtain ⟨s', e, m, a, b⟩ := ih ⟨raw, cap, mem ++ bs, .little, pos + bs.length⟩ hr (by simp [hl])
+        exact ⟨s', e, by rw [m]; simp, a, b⟩
+    | endian e' =>
+      simp only [serFields]
+      obtain ⟨s', e, m, a, b⟩ := ih { s with endian := e' } hr hl
+      exact ⟨s', e, by rw [m]; simp [encodeFields], a, b⟩
+
+theorem take_at (pre bs post : List UInt8) (e : Endian) :
+    D.take ⟨pre ++ bs ++ post, e, pre.length⟩ bs.length
+      = .ok (some bs, ⟨pre ++ bs ++ post, e, pre.length + bs.length⟩) := by
+  unfold D.take
+  simp only [List.length_append]
+  rw [if_pos (by omega)]
+  have hd : ((pre ++ bs ++ post).drop pre.length).take bs.length = bs := by
+    rw [List.append_assoc, List.drop_left, List.take_left' rfl]
+  rw [hd, if_pos rfl]
+
+/-- reading back with the same shape returns the same fields, at any offset and with any suffix -/
+theorem desFields_enc : ∀ (fs : List Field) (e : Endian) (pre post : List UInt8), (∀ f ∈ fs, f.valid = true) →
+    desFields ⟨pre ++ encodeFields e fs ++ post, e, pre.length⟩ fs = .ok (some fs) := by
+  intro fs
+  induction fs with
+  | nil => intro e pre post _; rfl
+  | cons f r ih =>
+    intro e pre post hv
+    have hr : ∀ f ∈ r, f.valid = true := fun f hf => hv f (by simp [hf])
+    cases f with
+    | int n v =>
+      have hvn : v < 256 ^ n := by have := hv (.int n v) (by simp); simpa [Field.valid] using this
+      have hl := intBytes_length e n v
+      simp only [desFields, encodeFields, D.fetchInt]
+      have e1 : pre ++ (intBytes e n v ++ encodeFields e r) ++ post
+          = pre ++ intBytes e n v ++ (encodeFields e r ++ post) := by simp
+      rw [e1]
+      have := take_at pre (intBytes e n v) (encodeFields e r ++ post) e
+      rw [hl] at this
+      rw [this]; simp only [Res.bind_ok, Res.pure_eq, Option.map_some, intValue_intBytes]
+      have e2 : pre ++ intBytes e n v ++ (encodeFields e r ++ post)
+          = (pre ++ intBytes e n v) ++ encodeFields e r ++ post := by simp
+      have e3 : pre.length + n = (pre ++ intBytes e n v).length := by simp [hl]
+      rw [e2, e3, ih e _ post hr]
+      have h8 : 2 ^ (8 * n) = 256 ^ n := by rw [Nat.pow_mul]
+      simp [h8, Nat.mod_eq_of_lt hvn]
+    | raw bs =>
+      simp only [desFields, encodeFields, D.fetchRaw]
+      have e1 : pre ++ (bs ++ encodeFields e r) ++ post = pre ++ bs ++ (encodeFields e r ++ post) := by simp
+      rw [e1, take_at pre bs (encodeFields e r ++ post) e]; simp only [Res.bind_ok]
+      have e2 : pre ++ bs ++ (encodeFields e r ++ post) = (pre ++ bs) ++ encodeFields e r ++ post := by simp
+      have e3 : pre.length + bs.length = (pre ++ bs).length := by simp
+      rw [e2, e3, ih e _ post hr]; simp
+    | pod bs =>
+      simp only [desFields, encodeFields, D.fetchPOD]
+      cases e with
+      | little =>
+        simp only
+        have e1 : pre ++ (bs ++ encodeFields .little r) ++ post = pre ++ bs ++ (encodeFields .little r ++ post) := by simp
+        rw [e1, take_at pre bs (encodeFields .little r ++ post) .little]; simp only [Res.bind_ok, Res.pure_eq, Option.map_some]
+        have e2 : pre ++ bs ++ (encodeFields .little r ++ post) = (pre ++ bs) ++ encodeFields .little r ++ post := by simp
+        have e3 : pre.length + bs.length = (pre ++ bs).length := by simp
+        rw [e2, e3, ih .little _ post hr]; simp
+      | big =>
+        simp only
+        have e1 : pre ++ (bs.reverse ++ encodeFields .big r) ++ post = pre ++ bs.reverse ++ (encodeFields .big r ++ post) := by simp
+        have := take_at pre bs.reverse (encodeFields .big r ++ post) .big
+        rw [List.length_reverse] at this
+        rw [e1, this]; simp only [Res.bind_ok, Res.pure_eq, Option.map_some, List.reverse_reverse]
+        have e2 : pre ++ bs.reverse ++ (encodeFields .big r ++ post) = (pre ++ bs.reverse) ++ encodeFields .big r ++ post := by simp
+        have e3 : pre.length + bs.length = (pre ++ bs.reverse).length := by simp
+        rw [e2, e3, ih .big _ post hr]; simp
+    | endian e' =>
+      simp only [desFields, encodeFields]
+      rw [ih e' pre post hr]; simp
+
+end Tbox.C19.Ser
